@@ -834,6 +834,8 @@ class BeliefPropagation(Inference):
             frozenset(edge): None for edge in self.junction_tree.edges()
         }
 
+        self._calibrated_by = operation
+
         # Two-pass schedule: collect messages from the leaves towards a root and
         # then distribute them back. This calibrates the tree exactly and doesn't
         # depend on a tolerance based convergence test.
@@ -949,8 +951,12 @@ class BeliefPropagation(Inference):
         Probabilistic Graphical Models: Principles and Techniques Daphne Koller and Nir Friedman.
         """
 
-        is_calibrated = self._is_converged(operation=operation)
-        # Calibrate the junction tree if not calibrated
+        # Calibrate the junction tree unless the current beliefs were produced by
+        # `calibrate`. (Beliefs left by `max_calibrate` can pass the tolerance based
+        # `_is_converged` test without being sum-calibrated.)
+        is_calibrated = bool(self.clique_beliefs) and (
+            getattr(self, "_calibrated_by", None) == "marginalize"
+        )
         if not is_calibrated:
             self.calibrate()
 
